@@ -41,6 +41,8 @@ def main():
             m = re.search(r"(/tmp/seed/\w+)/certs", open(demo, errors="replace").read())
             if m:
                 certdir = m.group(1) + "/certs"
+            if certdir is None and "WITH_TLS" in flags:
+                certdir = "/verif/harness/certs"   # demos that look for certs/ relative to their cwd take the directory as argv[1]
             shutil.copy(demo, base + "/demo.cpp")
         libs = " -lssl -lcrypto" if "WITH_TLS" in flags else ""
 
